@@ -26,6 +26,7 @@ import (
 	"net/http/httptest"
 	"net/url"
 	"regexp"
+	"runtime"
 	"strings"
 	"sync"
 	"time"
@@ -669,3 +670,5 @@ func mustPKIXDER(pub crypto.PublicKey) []byte {
 	}
 	return der
 }
+
+func runtimeStack(buf []byte) int { return runtime.Stack(buf, true) }
